@@ -621,6 +621,28 @@ pub fn run_proc(bin: &str, args: &[String], feed: Feed, close_after: Option<usiz
             }
         })
     };
+    // hard watchdog: a child that neither exits nor closes its stdout would block the reads below
+    // for ever (they come before the ceiling loop); it is killed after 3 ceilings from the start
+    let pid = child.id() as i32;
+    let wd_fired = Arc::new(AtomicBool::new(false));
+    let wd_done = Arc::new(AtomicBool::new(false));
+    {
+        let (fired, done) = (wd_fired.clone(), wd_done.clone());
+        let hard = ceiling * 3 + Duration::from_millis(stall_ms);
+        std::thread::spawn(move || {
+            let t0 = Instant::now();
+            while !done.load(Ordering::SeqCst) {
+                if t0.elapsed() > hard {
+                    fired.store(true, Ordering::SeqCst);
+                    unsafe {
+                        libc::kill(pid, libc::SIGKILL);
+                    }
+                    break;
+                }
+                std::thread::sleep(Duration::from_millis(20));
+            }
+        });
+    }
     let mut se = child.stderr.take().unwrap();
     let errt = std::thread::spawn(move || {
         let mut v = Vec::new();
@@ -670,6 +692,10 @@ pub fn run_proc(bin: &str, args: &[String], feed: Feed, close_after: Option<usiz
         }
     }
     out.secs_after_close = t_close.elapsed().as_secs_f64();
+    wd_done.store(true, Ordering::SeqCst);
+    if wd_fired.load(Ordering::SeqCst) {
+        out.timed_out = true;
+    }
     stop.store(true, Ordering::SeqCst);
     let _ = feeder.join();
     out.stderr = errt.join().unwrap_or_default();
